@@ -187,9 +187,12 @@ Definition fp_agrees (modz : bool) (m : fb) (rbits : Z) : bool :=
   if FB.is_nan prec emax m then FB.is_nan prec emax r
   else Z.eqb (to_bits m) rbits || (modz && fp_is_zero m && fp_is_zero r).
 
+(** op codes 100 + op: the same operation, compared up to the sign of zero (results computed on
+    PatternedTensors; see notes/C08.md, "Observations") *)
 Definition fp_binop_check (c : nat * Z * Z * Z) : nat :=
   let '(op, x, y, r) := c in
-  if fp_agrees (Nat.eqb op 3) (fp_binop op (of_bits x) (of_bits y)) r then 0%nat else 10%nat.
+  let modz := Nat.eqb (Nat.modulo op 100) 3 || Nat.leb 100 op in
+  if fp_agrees modz (fp_binop (Nat.modulo op 100) (of_bits x) (of_bits y)) r then 0%nat else 10%nat.
 Definition fp_unop_check (c : nat * Z * Z) : nat :=
   let '(op, x, r) := c in
   if fp_agrees false (fp_unop op (of_bits x)) r then 0%nat else 10%nat.
@@ -226,3 +229,29 @@ Definition ffmt_cmp_check (c : nat * (nat * Z * Z * bool)) : nat :=
   let '(fmt, d) := c in if Nat.eqb fmt 32 then b32_cmp_check d else b64_cmp_check d.
 Definition ffmt_from_int_check (c : nat * (nat * Z * Z)) : nat :=
   let '(fmt, d) := c in if Nat.eqb fmt 32 then b32_from_int_check d else b64_from_int_check d.
+
+(** ** packed wire format (one integer per case: a list of 50 000 tuples of literals takes Coq ten
+    times longer to parse than to evaluate).  Layout, from the least significant bit:
+    1 bit format (0 = binary32, 1 = binary64), 8 bits op, then fields of w = 32 / 64 bits. *)
+Definition unpack_fmt (n : Z) : nat * nat * Z * Z :=
+  let fmt := if Z.odd n then 64%nat else 32%nat in
+  let w := if Z.odd n then 64%Z else 32%Z in
+  (fmt, Z.to_nat (Z.land (Z.shiftr n 1) 255), w, Z.shiftr n 9).
+Definition field (rest w : Z) (k : Z) : Z := Z.land (Z.shiftr rest (k * w)) (Z.ones w).
+
+(** binop: fields x, y, r *)
+Definition ffmt_binop_check_z (n : Z) : nat :=
+  let '(fmt, op, w, rest) := unpack_fmt n in
+  ffmt_binop_check (fmt, (op, field rest w 0, field rest w 1, Z.shiftr rest (2 * w))).
+(** unop: fields x, r *)
+Definition ffmt_unop_check_z (n : Z) : nat :=
+  let '(fmt, op, w, rest) := unpack_fmt n in
+  ffmt_unop_check (fmt, (op, field rest w 0, Z.shiftr rest w)).
+(** comparison: fields x, y, then the Boolean result *)
+Definition ffmt_cmp_check_z (n : Z) : nat :=
+  let '(fmt, op, w, rest) := unpack_fmt n in
+  ffmt_cmp_check (fmt, (op, field rest w 0, field rest w 1, Z.odd (Z.shiftr rest (2 * w)))).
+(** from_int: op = semiring (0 Real, otherwise Viterbi), a 64-bit field for the integer, then r *)
+Definition ffmt_from_int_check_z (n : Z) : nat :=
+  let '(fmt, sr, w, rest) := unpack_fmt n in
+  ffmt_from_int_check (fmt, (sr, Z.land rest (Z.ones 64), Z.shiftr rest 64)).
